@@ -211,7 +211,7 @@ def tail(n, start=0):
 class C18(common.Prop):
     ID = "C18"
     RUNNER = "c18"
-    MODEL_FILES = ["model/C18_Threads.v", "model/PoseRead.v", "model/Codec.v", "base/Prog.v"]
+    MODEL_FILES = ["model/C18_Threads.v", "model/PoseRead.v", "model/Codec.v", "base/Prog.v"]   # proofs: proofs/C18_*.v
     RULE = ("2 (thorough: also 3) reader threads over named file pairs - equal headers, same-length different headers, longer, "
             "shorter, malformed - as bytes, as streams and as window reads of streams, memo initially empty or warm; for every pair "
             "all line-level schedules with <= 2 (thorough <= 3) preemptions, 3 readers sampled; one case = one schedule; "
@@ -224,8 +224,9 @@ class C18(common.Prop):
                    "CPython executes one thread at a time (GIL) and each attribute load/store of a class attribute is atomic",
                    "CPython may switch threads between bytecodes; the replay scheduler switches only at line events - the model's "
                    "step (one access) refines both, the replayed schedules cover line granularity only",
-                   "the body decoded from (header, offset) by a BytesIOReader is outside the theorem (C03); the oracle compares it "
-                   "whenever the job's solo result does not itself depend on what the memo holds (always, since the F3 repair of the reader)"]
+                   "BytesIOReader threads: the thread model's result is (header, body offset); the body is covered by "
+                   "isolated_stream_body_partial (C03's reader simulation, forward direction); the oracle compares the whole pose "
+                   "whenever the job's solo result does not itself depend on what the memo holds (always, since the F3 repair)"]
 
     def __init__(self):
         self.info = None
